@@ -51,7 +51,9 @@ def vectors(kind):
     if kind == "modules-rl":
         return [dict(BASE), dict(BASE, remove_labels=True), dict(BASE, inline_functions=False), dict(BASE, inline_functions=False, compact=True, remove_labels=True)]
     if kind == "labels":
-        return [dict(BASE), dict(BASE, remove_labels=True), dict(BASE, inline_functions=False), dict(BASE, inline_functions=False, remove_labels=True)]
+        # the two comment vectors: label lines / jumps that carry a trailing comment (seeded C05-agent5, C05-agent6)
+        return [dict(BASE), dict(BASE, remove_labels=True), dict(BASE, inline_functions=False), dict(BASE, inline_functions=False, remove_labels=True),
+                dict(BASE, inline_functions=False, original_code_as_comment=True), dict(BASE, inline_functions=False, original_code_as_comment=True, remove_labels=True)]
     raise ValueError(kind)
 
 
